@@ -11,7 +11,7 @@ META = {
         "thorough": "all command codes, two-pair streams, every structure type at every length below m",
     },
     "outside": "shapes the generator does not produce; suffixes longer than 3 bytes",
-    "wall_budget_s": {"quick": 270, "thorough": 1500},
+    "wall_budget_s": {"quick": 270, "thorough": 840},
 }
 CORE = ("Startup", "GetRandom", "NV_Read", "PolicyCommandCode", "SetCommandCodeAuditStatus")  # the last two carry a TPM_CC as data
 
